@@ -13,7 +13,7 @@ def main():
                 ['secretstore/zz_verif_env.go', 'secretstore/zz_verif_rand.go', 'C14/zz_verif_c14.go'],
                 installers=[crypto.install, crypto.install_proto, c02.install], init_pkgs=[MOD + '/pkg/errcode'], prelude_pkgname='secretstore')
     P = MOD + '/pkg/secretstore.'
-    chk.load([P + n for n in ('VerifC14Push', 'VerifC14Tamper', 'VerifC14Slide', 'VerifC14Witness')])
+    chk.load([P + n for n in ('VerifC14Push', 'VerifC14Tamper', 'VerifC14Slide', 'VerifC14TwoSenders', 'VerifC14Witness')])
     cfg = {'timeout_ms': 60000, 'unwind': 16, 'dec_as_term': True}
     jobs = []
     for order in range(4):
@@ -21,6 +21,8 @@ def main():
             jobs.append(Job(P + 'VerifC14Push', (order, k), cfg=cfg))
     for j in ((0, 1, 2, 3) if t == 'quick' else (0, 1, 2, 3, 4, 5)):
         jobs.append(Job(P + 'VerifC14Slide', (j,), cfg=cfg))
+    for j in ((0, 4) if t == 'quick' else (0, 3, 4, 5)):
+        jobs.append(Job(P + 'VerifC14TwoSenders', (j,), cfg=cfg))
     jobs.append(Job(P + 'VerifC14Tamper', (), cfg=cfg))
     jobs.append(Job(P + 'VerifC14Witness', (), witness=True, cfg=cfg))
     res = chk.run_jobs(jobs)
